@@ -59,3 +59,71 @@ Theorem C05_stump_follows_reference_history_term :
   = Some (stump_of term term_ops (apply_hist term term_ops [] bs), apply_hist term term_ops [] bs).
 Proof. exact stump_history_refines_term. Qed.
 Print Assumptions C05_stump_follows_reference_history_term.
+
+(** ** ANY accepted encoding (the property's full quantifier), free hash algebra, leaves are atoms *)
+From Utreexo Require Import Proofs.Soundness Proofs.AcceptedBlock Proofs.AcceptedHistory.
+
+(** Whatever (hashes, targets, proof) the repaired roots-only verifier accepts - targets in any order,
+    unused trailing proof hashes - if the claimed positions are leaf positions, the deletion leaves
+    exactly the reference roots with the named leaves removed. *)
+Theorem C05_any_accepted_deletion :
+  forall (s : slots term) (hs : list term) (ts : list N) (pf : list term) st' inter,
+    leaves_atoms s -> NoDup (live s) -> N.of_nat (length s) <= 2 ^ 63 ->
+    (forall t, In t ts -> exists x, find_pos (crows (mk_ctx term_ops s)) (clay (mk_ctx term_ops s)) t = Some x /\ nleaf x = true) ->
+    stump_del term_ops true (the_stump (mk_ctx term_ops s)) hs ts pf = (st', Ok inter) ->
+    st_roots st' = roots term_ops (kill term_ops hs s) /\ st_n st' = num_leaves s.
+Proof. exact stump_del_accepted_refines. Qed.
+Print Assumptions C05_any_accepted_deletion.
+
+(** ... followed by arbitrary additions *)
+Theorem C05_any_accepted_block :
+  forall filler (s : slots term) (hs adds : list term) (ts : list N) (pf : list term) st' ud,
+    leaves_atoms s -> NoDup (live s) ->
+    N.of_nat (length s + length adds) <= 2 ^ 63 ->
+    (forall h, In h adds -> NZ term_ops h) ->
+    (forall t, In t ts ->
+       exists x, find_pos (crows (mk_ctx term_ops s)) (clay (mk_ctx term_ops s)) t = Some x /\
+                 nleaf x = true) ->
+    stump_update term_ops true filler (the_stump (mk_ctx term_ops s)) hs adds ts pf = (st', Ok ud) ->
+    st_roots st' = roots term_ops (apply_block term_ops s hs adds) /\
+    st_n st' = num_leaves (apply_block term_ops s hs adds) /\
+    u_prev ud = num_leaves s.
+Proof. exact stump_update_accepted_refines. Qed.
+Print Assumptions C05_any_accepted_block.
+
+(** ... and along every history: if every block of a history is accepted ([run_any] returns a value)
+    and names leaf positions, the final stump is the stump of the reference forest *)
+Theorem C05_any_accepted_history :
+  forall filler (bs : list ablock) stf sf,
+    N.of_nat (atotal_adds bs) <= 2 ^ 63 -> ahist_ok [] bs ->
+    run_any filler (mkStump [] 0) [] bs = Some (stf, sf) ->
+    st_roots stf = roots term_ops sf /\ st_n stf = num_leaves sf.
+Proof. exact accepted_history_refines_empty. Qed.
+Print Assumptions C05_any_accepted_history.
+
+(** the outcome of an accepted deletion does not depend on the proof encoding at all (any hash type
+    with an injective, never-empty [hash2]; any stump) *)
+Theorem C05_accepted_outcome_independent_of_encoding :
+  forall (H : Type) (HO : ops H), ops_ok HO ->
+    (forall a b, NZ HO (op_hash2 HO a b)) ->
+    (forall a b c d, op_hash2 HO a b = op_hash2 HO c d -> a = c /\ b = d) ->
+    forall (st : stump H) hs ts pf1 pf2 st1 i1 st2 i2,
+      stump_del HO true st hs ts pf1 = (st1, Ok i1) ->
+      stump_del HO true st hs ts pf2 = (st2, Ok i2) -> st1 = st2 /\ i1 = i2.
+Proof. exact stump_del_proof_irrelevant. Qed.
+Print Assumptions C05_accepted_outcome_independent_of_encoding.
+
+(** why the property says "whose targets are live leaves": the verifier also accepts the true hash of
+    an INNER node as a target and then removes the whole subtree, which is not [kill] of a leaf *)
+Theorem C05_scope_nonleaf_target :
+  let s := ab_s4 in
+  let hs := [Node (Atom 0) (Atom 1)] in
+  leaves_atoms s /\ NoDup (live s) /\ N.of_nat (length s) <= 2 ^ 63 /\
+  exists st' inter,
+    stump_del term_ops true (the_stump (mk_ctx term_ops s)) hs [4] [Node (Atom 2) (Atom 3)]
+    = (st', Ok inter) /\
+    st_roots st' = [Node (Atom 2) (Atom 3)] /\
+    roots term_ops (kill term_ops hs s) = [Node (Node (Atom 0) (Atom 1)) (Node (Atom 2) (Atom 3))] /\
+    st_roots st' <> roots term_ops (kill term_ops hs s).
+Proof. exact stump_del_accepted_nonleaf_refuted. Qed.
+Print Assumptions C05_scope_nonleaf_target.
